@@ -2,6 +2,11 @@ import ZCV.Model.Conv
 import ZCV.Lemmas.Except
 import ZCV.Lemmas.LoadSpec
 import ZCV.Lemmas.TextLoad
+import ZCV.Lemmas.NoInternalLower
+import ZCV.Lemmas.DischargeElab
+import ZCV.Lemmas.DischargeExamples
+import ZCV.Props.C10
+import ZCV.Props.C01
 namespace ZCV.Props.C02
 open ZCV ZCV.Cfg
 
@@ -79,5 +84,68 @@ theorem C02_text_value_eq_denote (conv : Conv) (env : Env) (pkgs : Str → Pkg) 
       rw [hl] at e
       simp only [Option.some.injEq] at e
       exact ⟨items, rfl, by rw [e]; exact C02_value_eq_denote conv s items v hs hc hl⟩
+
+open ZCV.Conf in
+/-- the same without the table hypothesis: `hlow` is discharged by the proved `lower_idem` -/
+theorem C02_text_value_eq_denote' (conv : Conv) (env : Env) (pkgs : Str → Pkg) (s : Schema) (url : Option Str)
+    (lines : List Str) (r : LoadResult) (hs : schemaOK s = true) (hkeys : ∀ p ∈ s.types, lower p.1 = p.1)
+    (hni : ∀ l ∈ lines, NoImportLine l) (hres : ∀ u ls, env.res u = some ls → ∀ l ∈ ls, NoImportLine l)
+    (h : load conv env pkgs s url lines [] = .ok r) :
+    ∃ items, treeOf env url lines = .ok items ∧ denote conv s items = some r.value :=
+  C02_text_value_eq_denote conv env pkgs s url lines r hs ZCV.lower_idem hkeys hni hres h
+
+open ZCV.Conf in
+/-- **End to end: the value tree is exactly what the schema DOCUMENT defines.**  Take any schema document `doc` the
+    schema loader accepts (components and base schemas to any depth; `hkey`: the key types never turn a non-empty name
+    into the empty string — true of the stock key types) and the schema object `S` it returns.  For every family of
+    datatype functions and every configuration text without `%import`, loaded without overrides: whenever the loader
+    returns a configuration, its value is `denote conv S` of the tree the parser builds from the text — attributes in
+    schema order, converted values or defaults, sections in file order (see `C02_value_eq_denote`).  No structural
+    hypothesis on `S` is left (C10 + `elab_types_keys_lower` + `lower_idem`). -/
+theorem C02_end_to_end (eenv : Elab.Env) (fuel : Nat) (doc : Elab.Node) (S : Schema)
+    (hkey : ∀ (kt s r : Str), s ≠ [] → eenv.conv.key kt s = .ok r → r ≠ [])
+    (hS : Elab.elabSchema eenv fuel doc = .ok S)
+    (conv : Conv) (env : Env) (pkgs : Str → Pkg) (url : Option Str) (lines : List Str) (r : LoadResult)
+    (hni : ∀ l ∈ lines, NoImportLine l) (hres : ∀ u ls, env.res u = some ls → ∀ l ∈ ls, NoImportLine l)
+    (h : load conv env pkgs S url lines [] = .ok r) :
+    ∃ items, treeOf env url lines = .ok items ∧ denote conv S items = some r.value :=
+  C02_text_value_eq_denote' conv env pkgs S url lines r
+    (ZCV.Props.C10.C10_elab_schemaOK eenv fuel doc S hkey hS) (Elab.elab_types_keys_lower hS) hni hres h
+
+open ZCV.Conf in
+/-- the same when the schema loader runs with the stock key types: no hypothesis about the schema or the key types -/
+theorem C02_end_to_end_stock (eenv : Elab.Env) (fuel : Nat) (doc : Elab.Node) (S : Schema)
+    (hconv : eenv.conv = stockConv) (hS : Elab.elabSchema eenv fuel doc = .ok S)
+    (conv : Conv) (env : Env) (pkgs : Str → Pkg) (url : Option Str) (lines : List Str) (r : LoadResult)
+    (hni : ∀ l ∈ lines, NoImportLine l) (hres : ∀ u ls, env.res u = some ls → ∀ l ∈ ls, NoImportLine l)
+    (h : load conv env pkgs S url lines [] = .ok r) :
+    ∃ items, treeOf env url lines = .ok items ∧ denote conv S items = some r.value :=
+  C02_end_to_end eenv fuel doc S
+    (by intro kt s r hs hr; rw [hconv] at hr; exact Elab.stockConv_key_ne_nil kt s r hs hr) hS conv env pkgs url lines r
+    hni hres h
+
+open ZCV.Conf in
+/-- the hypotheses of the end-to-end theorem are satisfiable (accepted schema document with a base schema and a
+    component, stock key types; import-free four-line text; no includable resources): whatever that load returns is
+    `denote` of the tree of the text -/
+example : ∃ S, Elab.elabSchema Elab.Example.env 1 Elab.Example.doc = .ok S ∧
+    ∀ r, load Ex.conv Ex.env Ex.pkgs S none DischargeEx.lines [] = .ok r →
+      ∃ items, treeOf Ex.env none DischargeEx.lines = .ok items ∧ denote Ex.conv S items = some r.value := by
+  obtain ⟨S, hS⟩ := DischargeEx.dis_ex_doc_accepted
+  exact ⟨S, hS, fun r hr => C02_end_to_end_stock _ 1 _ S DischargeEx.dis_ex_env_stock hS _ _ _ _ _ r
+    DischargeEx.dis_ex_lines_noImport DischargeEx.dis_ex_res hr⟩
+
+open ZCV.Conf in
+/-- … including `h`: for that schema document the one-line text `# c` IS accepted, and the configuration returned is
+    `denote` of its (empty) tree -/
+example : ∃ S r, Elab.elabSchema Elab.Example.env 1 Elab.Example.doc = .ok S ∧
+    load Ex.conv Ex.env Ex.pkgs S none ["# c".toList] [] = .ok r ∧
+    ∃ items, treeOf Ex.env none ["# c".toList] = .ok items ∧ denote Ex.conv S items = some r.value := by
+  obtain ⟨S, hS, hch⟩ := DischargeEx.dis_ex_doc_accepted_empty
+  obtain ⟨r, hr⟩ := (ZCV.Props.C01.C01_end_to_end_stock _ 1 _ S DischargeEx.dis_ex_env_stock hS Ex.conv Ex.env Ex.pkgs none _
+    DischargeEx.dis_ex_comment_noImport DischargeEx.dis_ex_res).mpr
+    ⟨[], DischargeEx.dis_ex_comment_tree, DischargeEx.dis_ex_conforms_nil S hch⟩
+  exact ⟨S, r, hS, hr, C02_end_to_end_stock _ 1 _ S DischargeEx.dis_ex_env_stock hS _ _ _ _ _ r
+    DischargeEx.dis_ex_comment_noImport DischargeEx.dis_ex_res hr⟩
 
 end ZCV.Props.C02
